@@ -75,7 +75,8 @@ pub(super) fn get_highest_index(file_spec: &FileSpec) -> Option<u32> {
             &name[1..]
         };
 
-        let idx: u32 = infix.parse().unwrap_or(0);
+        // compressed files still carry the suffix (like in "00017.log")
+        let idx: u32 = infix.split('.').next().unwrap_or(infix).parse().unwrap_or(0);
         o_highest_idx = match o_highest_idx {
             None => Some(idx),
             Some(prev) => Some(max(prev, idx)),
